@@ -274,8 +274,11 @@ func (c *Classifier) Normalize(in []byte) []byte {
 		buf.WriteString(first)
 	}
 	for _, t := range doc.Tokens[1:] {
-		// Only write out an EOL token that incremented the line
-		if t.Line == prevLine+1 {
+		// Only write out an EOL token that incremented the line. The line can
+		// advance by more than one without an EOL token in between (a word
+		// hyphenated across a line break that is followed by a line without
+		// words), so emit one EOL per line to stay aligned with the input.
+		for l := prevLine; l < t.Line; l++ {
 			buf.WriteString(eol)
 		}
 
